@@ -51,6 +51,41 @@ structure ItOut where
   pos : List Atom                 -- atoms appended by this call, deepest first
   b : Builder
 
+/-- `takeFirst` (iterator.go:283): the key is at least as long as the node's path but below it. -/
+def takeFirstB (nbd : Nat) (newPath : Bits) (key : Bytes) : Bool :=
+  decide (nbd > 0) && decide (8 * key.length ≥ nbd) && decide (key < packBits newPath)
+
+/-- `keyNotLonger` (iterator.go:284). -/
+def keyNotLongerB (nbd : Nat) (key : Bytes) : Bool := decide (8 * key.length ≤ nbd)
+
+/-- `tryNext`: when the child found an item, remember where to resume in the parent. -/
+def pushOut (a : Atom) (o : ItOut) : ItOut :=
+  if o.found.isSome then ⟨o.found, o.pos ++ [a], o.b⟩ else ⟨none, [], o.b⟩
+
+/-- Try the node's own leaf (`tryNext(n.LeafNode, key, visitAt)`, only in `visitBefore`); the leaf
+pointer is dereferenced, hence included, whenever it is tried. -/
+def leafStage (self : Atom) (lf : Option (Bytes × Bytes)) (hlf : Bytes) (nbd : Nat) (newPath : Bits)
+    (key : Bytes) (b : Builder) : ItOut :=
+  if keyNotLongerB nbd key || takeFirstB nbd newPath key then
+    match lf with
+    | none => ⟨none, [], b⟩
+    | some (k, v) =>
+      let b := b.includeLeaf hlf k v
+      if k < key then ⟨none, [], b⟩ else ⟨some (k, v), [{ self with st := .at }], b⟩
+  else ⟨none, [], b⟩
+
+/-- The body of `case visitAt` (iterator.go:298-312), reached from `visitBefore` by fallthrough.
+`goL`/`goR` are `doNext` on the left/right child in state `visitBefore`. -/
+def fromAtStage (self : Atom) (nbd : Nat) (newPath : Bits) (key : Bytes)
+    (goL goR : Bytes → Builder → ItOut) (b : Builder) : ItOut :=
+  let tf := takeFirstB nbd newPath key
+  let key := if keyNotLongerB nbd key then keyAppendBit key nbd false else key
+  let goLeft := !keyGetBit key nbd || tf
+  let viaLeft : ItOut := if goLeft then pushOut { self with st := .atLeft } (goL key b) else ⟨none, [], b⟩
+  if viaLeft.found.isSome then viaLeft else
+  let key := if goLeft then keyAdvanceRight key nbd else key
+  pushOut { self with st := .after } (goR key viaLeft.b)
+
 /-- `treeIterator.doNext` (iterator.go:256). `d` = `bitDepth`, `path` = the bits of `path`. -/
 def doNext (ver : Nat) : HTrie → Nat → Bits → Bytes → VState → Builder → ItOut
   | .nil, _, _, _, _, b => ⟨none, [], b⟩
@@ -58,40 +93,19 @@ def doNext (ver : Nat) : HTrie → Nat → Bits → Bytes → VState → Builder
     let b := b.includeLeaf h k v
     if k < key then ⟨none, [], b⟩ else ⟨some (k, v), [], b⟩
   | .node h lab lf hlf l r, d, path, key, st, b =>
-    let self : HTrie := .node h lab lf hlf l r
+    let self : Atom := ⟨.node h lab lf hlf l r, d, path, st⟩
     let b := b.includeNode ver h lab lf
     let nbd := d + lab.length
     let newPath := path ++ lab
-    let takeFirst := nbd > 0 && decide (8 * key.length ≥ nbd) && decide (key < packBits newPath)
-    let keyNotLonger := decide (8 * key.length ≤ nbd)
-    -- tryNext on the own leaf (visitBefore only)
-    let r1 : ItOut :=
-      if st = .before && (keyNotLonger || takeFirst) then
-        match lf with
-        | none => ⟨none, [], b⟩
-        | some (k, v) =>
-          let b := b.includeLeaf hlf k v
-          if k < key then ⟨none, [], b⟩ else ⟨some (k, v), [⟨self, d, path, .at⟩], b⟩
-      else ⟨none, [], b⟩
-    if r1.found.isSome then r1 else
-    let b := r1.b
-    if st = .before || st = .at then
-      let key := if keyNotLonger then keyAppendBit key nbd false else key
-      let goLeft := !keyGetBit key nbd || takeFirst
-      let r2 : ItOut :=
-        if goLeft then
-          let o := doNext ver l nbd newPath key .before b
-          if o.found.isSome then ⟨o.found, o.pos ++ [⟨self, d, path, .atLeft⟩], o.b⟩ else ⟨none, [], o.b⟩
-        else ⟨none, [], b⟩
-      if r2.found.isSome then r2 else
-      let key := if goLeft then keyAdvanceRight key nbd else key
-      let o := doNext ver r nbd newPath key .before r2.b
-      if o.found.isSome then ⟨o.found, o.pos ++ [⟨self, d, path, .after⟩], o.b⟩ else ⟨none, [], o.b⟩
-    else if st = .atLeft then
-      let key := keyAdvanceRight key nbd
-      let o := doNext ver r nbd newPath key .before b
-      if o.found.isSome then ⟨o.found, o.pos ++ [⟨self, d, path, .after⟩], o.b⟩ else ⟨none, [], o.b⟩
-    else ⟨none, [], b⟩
+    let goL := fun k b => doNext ver l nbd newPath k .before b
+    let goR := fun k b => doNext ver r nbd newPath k .before b
+    match st with
+    | .before =>
+      let o := leafStage self lf hlf nbd newPath key b
+      if o.found.isSome then o else fromAtStage self nbd newPath key goL goR o.b
+    | .at => fromAtStage self nbd newPath key goL goR b
+    | .atLeft => pushOut { self with st := .after } (goR (keyAdvanceRight key nbd) b)
+    | .after => ⟨none, [], b⟩
 
 /-- Iterator state: current item, resume stack (deepest first), the proof builder. -/
 structure Iter where
@@ -168,12 +182,30 @@ def seqFill (chunkSize : Nat) : Nat → Iter → Iter
   | 0, it => it
   | n + 1, it => if it.cur.isSome && decide (it.b.size < chunkSize) then seqFill chunkSize n (itNext 0 it) else it
 
-/-- `seqChunker.createChunk` (chunk.go:89): the chunk's entries and the next offset. -/
-def seqChunk (eh : Bytes) (chunkSize : Nat) (root : HTrie) (offset : Bytes) : List (Option Bytes) × Option Bytes :=
-  let it := seqFill chunkSize (root.count + 1) (itSeek 0 root offset {})
-  let entries := (build eh 0 it.b.incl root).entries
+/-- `seqChunker.createChunk` (chunk.go:89) with explicit loop fuel: the included set of the chunk's
+proof builder when the proof is built, and the next offset. -/
+def seqChunkI (fuel : Nat) (chunkSize : Nat) (root : HTrie) (offset : Bytes) : List Bytes × Option Bytes :=
+  let it := seqFill chunkSize fuel (itSeek 0 root offset {})
   let next := if it.cur.isSome then (itNext 0 it).cur.map (·.1) else none
-  (entries, next)
+  (it.b.incl, next)
+
+/-- The fuel of the loops of the sequential chunker: they advance by one key per step (shown sufficient
+in OasisProofs/Helpers/MkvsChunkSeq.lean: more fuel never changes the result). -/
+def seqFuel (root : HTrie) : Nat := root.count + 1
+
+/-- `seqChunker.createChunk`: the chunk's entries and the next offset. -/
+def seqChunk (eh : Bytes) (chunkSize : Nat) (root : HTrie) (offset : Bytes) : List (Option Bytes) × Option Bytes :=
+  let c := seqChunkI (seqFuel root) chunkSize root offset
+  ((build eh 0 c.1 root).entries, c.2)
+
+/-- The included sets of all chunks, with explicit fuels (inner loop, outer loop). -/
+def seqInclsF (fuel : Nat) (chunkSize : Nat) (root : HTrie) : Nat → Bytes → List (List Bytes)
+  | 0, _ => []
+  | n + 1, offset =>
+    let c := seqChunkI fuel chunkSize root offset
+    match c.2 with
+    | none => [c.1]
+    | some next => c.1 :: seqInclsF fuel chunkSize root n next
 
 def seqLoop (eh : Bytes) (chunkSize : Nat) (root : HTrie) : Nat → Bytes → List (List (Option Bytes))
   | 0, _ => []
@@ -185,7 +217,7 @@ def seqLoop (eh : Bytes) (chunkSize : Nat) (root : HTrie) : Nat → Bytes → Li
 
 /-- `seqChunker.chunk` (chunk.go:52): the chunk list (entries of each V0 proof). -/
 def seqChunks (eh : Bytes) (chunkSize : Nat) (root : HTrie) : List (List (Option Bytes)) :=
-  seqLoop eh chunkSize root (root.count + 1) []
+  seqLoop eh chunkSize root (seqFuel root) []
 
 /-! ### the parallel chunker -/
 
@@ -423,6 +455,65 @@ def rsRestoreChunk (H : Bytes → Bytes) (root : Bytes) (rs : Restorer) (idx : N
         let pending := rs.pending.filter (· ≠ idx)
         if pending.isEmpty then (.ok true, { current := none, pending := [], db := db })
         else (.ok false, { rs with pending := pending, db := db })
+
+/-! ### `RestoreChunk` under concurrent callers (restorer.go:66-110)
+
+Phase 1 runs under the restorer's lock: a restore must be in progress and the chunk pending. The import
+(`restoreChunk`) runs outside the lock. Phase 2 runs under the lock again: the index is removed from the
+pending set and completion is reported when the set is empty — without checking again that the restore
+that phase 1 saw is still the one in progress. Several callers can be between the phases. -/
+
+/-- Phase 1. -/
+def rsBegin (rs : Restorer) (idx : Nat) : Except RErr Unit :=
+  match rs.current with
+  | none => .error .noRestore
+  | some n =>
+    if !rs.pending.contains idx then .error .alreadyRestored
+    else if idx ≥ n then .error .chunkNotFound
+    else .ok ()
+
+/-- Import + phase 2. -/
+def rsFinish (H : Bytes → Bytes) (root : Bytes) (rs : Restorer) (idx : Nat) (c : ChunkData) :
+    Except RErr Bool × Restorer :=
+  match restoreChunkM H root rs.db c with
+  | .error .proofFailed => (.error .proofFailed, rsAbort rs)
+  | .error e => (.error e, rs)
+  | .ok db =>
+    let pending := rs.pending.filter (· ≠ idx)
+    if pending.isEmpty then (.ok true, { current := none, pending := [], db := db })
+    else (.ok false, { rs with pending := pending, db := db })
+
+/-- Events of a session with concurrent callers. -/
+inductive CEvent
+  | start (n : Nat)
+  | abort
+  | begin (idx : Nat)
+  | finish (idx : Nat) (c : ChunkData)
+
+/-- Restorer plus the calls that are between their two phases. -/
+structure CState where
+  rs : Restorer := {}
+  inflight : List Nat := []
+
+/-- One event; the second component is what a `RestoreChunk` call returns when it ends here. -/
+def cStep (H : Bytes → Bytes) (root : Bytes) (s : CState) : CEvent → CState × Option (Except RErr Bool)
+  | .start n =>
+    match rsStart s.rs n with
+    | .ok rs' => ({ s with rs := rs' }, none)
+    | .error _ => (s, none)
+  | .abort => ({ s with rs := rsAbort s.rs }, none)
+  | .begin idx =>
+    match rsBegin s.rs idx with
+    | .ok _ => ({ s with inflight := idx :: s.inflight }, none)
+    | .error e => (s, some (.error e))
+  | .finish idx c =>
+    if s.inflight.contains idx then
+      let r := rsFinish H root s.rs idx c
+      ({ rs := r.2, inflight := s.inflight.erase idx }, some r.1)
+    else (s, none)
+
+def cRun (H : Bytes → Bytes) (root : Bytes) (s : CState) (evs : List CEvent) : CState :=
+  evs.foldl (fun s e => (cStep H root s e).1) s
 
 /-- Driver helper: restore the given chunk list in the given order (indices may repeat or be out of
 range); returns the number of distinct imported node hashes and whether the restore completed. -/
